@@ -95,3 +95,23 @@ __CPROVER_assigns(g_dpushed, g_nt_next)
 __CPROVER_ensures(g_dpushed == ((0 <= g_dyn_type && g_dyn_type < g_n) ? 1 : 0))                                            /*@ob C18.stored-iff-the-dynamic-type-is-in-the-event-set */
 __CPROVER_ensures(g_nt_next == ((0 <= g_dyn_type && g_dyn_type < g_n) ? 0 : nr_regions))                                  /*@ob C18.otherwise-no-transition-once-per-region */
 ;
+
+/* ---- back favor_compile_time: process_any_event (an event forwarded to a submachine travels as boost::any and is re-typed by a
+   linear search over the submachine's event set): process_any_event_helper::operator() for every element of the set (C18, C07) ---- */
+#if UNIT_ANY_HELPER
+extern int g_pcalls, g_pret;
+static _Bool any_holds(type_t t, event_t any_event) { return g_dyn_type == t; }          /* boost::any_cast<Event>(&any) != 0 [A] */
+HandledEnum process_event_internal_typed(fsm_t* self, event_t e)
+__CPROVER_requires(g_pcalls == 0)                                                /*@ob C18,C07.forwarded-event-processed-exactly-once */
+__CPROVER_requires(e.type == g_dyn_type && 0 <= g_dyn_type && g_dyn_type < g_n)  /*@ob C18.forwarded-event-processed-as-its-exact-dynamic-type */
+__CPROVER_requires(e.payload == g_evt.payload)                                   /*@ob C18.payload-intact-through-the-any-forwarding */
+__CPROVER_assigns(g_pcalls, g_pret)
+__CPROVER_ensures(g_pcalls == 1 && 0 <= g_pret && g_pret <= 7 && (int)__CPROVER_return_value == g_pret)
+;
+HandledEnum process_any_event(fsm_t* self, event_t any_event)
+__CPROVER_requires(EV_EQ(any_event, g_evt) && g_pcalls == 0 && 0 <= g_n && g_n <= 1000000)
+__CPROVER_assigns(g_pcalls, g_pret)
+__CPROVER_ensures(g_pcalls == ((0 <= g_dyn_type && g_dyn_type < g_n) ? 1 : 0))                              /*@ob C18,C07.forwarded-event-processed-exactly-once */
+__CPROVER_ensures((int)__CPROVER_return_value == ((0 <= g_dyn_type && g_dyn_type < g_n) ? g_pret : HANDLED_FALSE))   /*@ob C06,C07.result-of-the-submachine-returned-unchanged */
+;
+#endif
